@@ -410,8 +410,9 @@ def concretize (p : POp) : Option Op := evalOp ⟨fun _ _ => none, fun _ _ => no
 
 /-- One API call on a template, in Python statement order:
 `verify_parametrization` (the variables of the arguments must be the sequence's own; only then
-does the sequence become parametrized — the order since the repair of finding F3), then either
-the concrete method body or the store-time checks. -/
+does the sequence become parametrized — the order since the repair of finding F3 — and a call
+refused by a store-time check puts the flag back), then either the concrete method body or the
+store-time checks. -/
 def tstep (t : Tmpl) (p : POp) : Tmpl × Option PErr :=
   if p.isParam && !varsDeclared t p then (t, some .unknownVariable)
   else
@@ -424,7 +425,7 @@ def tstep (t : Tmpl) (p : POp) : Tmpl × Option PErr :=
       ({ t1 with pre := r.st }, r.err.map PErr.seq)
   else
     match storeCheck t1 p with
-    | some e => (t1, some (.seq e))
+    | some e => (t, some (.seq e))     -- refused: the template is as it was, `param` included
     | none =>
       let t2 := { t1 with stored := t1.stored ++ [storedForm t1 p] }
       (match p with
